@@ -470,6 +470,23 @@ pub fn build_exec(scn: &C20Scn, v: &Variant, text: &str) -> (Fs, Exec, Option<St
     if let Some(c) = &v.config {
         fs.insert(c.path.clone(), config_bytes(scn, c));
         opts.push(("--removal-marker-target-config".into(), Some(c.path.clone())));
+        // a file of the same relative name next to the source (it names every marker of the
+        // document): a config path is relative to the working directory, never to the source
+        if let Some(ip) = &in_path {
+            if let Some((dir, _)) = ip.rsplit_once('/') {
+                let decoy = format!("{}/{}", dir, c.path);
+                if decoy != c.path && v.explicit_defaults & 0x40 != 0 {
+                    let mut all = String::new();
+                    for e in scn.doc.elems() {
+                        if let Some(AttrVal::Val(n)) = &e.name {
+                            all.push_str(n);
+                            all.push('\n');
+                        }
+                    }
+                    fs.insert(decoy, all.into_bytes());
+                }
+            }
+        }
     }
     match scn.mode {
         Mode::Clean => {}
